@@ -935,7 +935,28 @@ impl Session {
                     tids.iter()
                         .map(|t| {
                             let (s, ms) = raw::task_state_settled(pid, *t, 3000);
-                            json!({"tid": t, "state": s.to_string(), "settle_ms": ms})
+                            if matches!(s, 't' | 'Z' | 'X' | 'E') {
+                                json!({"tid": t, "state": s.to_string(), "settle_ms": ms})
+                            } else {
+                                // a task outside tracing stop: record what the kernel says it is doing
+                                let rd = |f: &str| {
+                                    std::fs::read_to_string(format!("/proc/{pid}/task/{t}/{f}"))
+                                        .unwrap_or_default()
+                                        .trim()
+                                        .to_string()
+                                };
+                                let status: Vec<String> = rd("status")
+                                    .lines()
+                                    .filter(|l| {
+                                        ["State", "TracerPid", "SigPnd", "ShdPnd", "SigBlk"]
+                                            .iter()
+                                            .any(|k| l.starts_with(k))
+                                    })
+                                    .map(|l| l.to_string())
+                                    .collect();
+                                json!({"tid": t, "state": s.to_string(), "settle_ms": ms, "wchan": rd("wchan"),
+                                       "syscall": rd("syscall"), "status": status})
+                            }
                         })
                         .collect(),
                 ),
